@@ -45,38 +45,40 @@ Definition render_kind (sd : sdoc N) (k : rkind) : str :=
   | KName pre post => pre ++ s_name sd ++ post
   end.
 
-Definition mk_res (sd : sdoc N) (r : rspec) : res str :=
-  mkRes (if rs_att r then s_doc sd else 0) (if rs_att r then s_file sd else 0)
+(* [force] = every result reports its document's position (the variant in which
+   the evaluator stamps parentless results; see the second fix candidate) *)
+Definition mk_res (force : bool) (sd : sdoc N) (r : rspec) : res str :=
+  mkRes (if rs_att r || force then s_doc sd else 0) (if rs_att r || force then s_file sd else 0)
         (if rs_lead r then s_lead sd else []) (render_kind sd (rs_kind r)).
 
 (* one selector over the context, document by document *)
-Fixpoint sel_docs (tb : table) (s : nat) (ds : list (sdoc N)) : option (list (res str)) :=
+Fixpoint sel_docs (force : bool) (tb : table) (s : nat) (ds : list (sdoc N)) : option (list (res str)) :=
   match ds with
   | [] => Some []
   | sd :: ds' =>
       match nth s (lookup tb (s_body sd)) None with
       | None => None
       | Some rs =>
-          match sel_docs tb s ds' with
+          match sel_docs force tb s ds' with
           | None => None
-          | Some rest => Some (List.map (mk_res sd) rs ++ rest)
+          | Some rest => Some (List.map (mk_res force sd) rs ++ rest)
           end
       end
   end.
 
 (* union: first selector over all documents, then the second, ... *)
-Fixpoint sels (tb : table) (ss : list nat) (ds : list (sdoc N)) : option (list (res str)) :=
+Fixpoint sels (force : bool) (tb : table) (ss : list nat) (ds : list (sdoc N)) : option (list (res str)) :=
   match ss with
   | [] => Some []
   | s :: ss' =>
-      match sel_docs tb s ds with
+      match sel_docs force tb s ds with
       | None => None
-      | Some a => match sels tb ss' ds with None => None | Some b => Some (a ++ b) end
+      | Some a => match sels force tb ss' ds with None => None | Some b => Some (a ++ b) end
       end
   end.
 
-Definition ev_inst (tb : table) (nsel : nat) (_ : unit) (ds : list (sdoc N)) : option (list (res str)) * unit :=
-  (sels tb (seq 0 nsel) ds, tt).
+Definition ev_inst (force : bool) (tb : table) (nsel : nat) (_ : unit) (ds : list (sdoc N)) : option (list (res str)) * unit :=
+  (sels force tb (seq 0 nsel) ds, tt).
 
 (* leading lines that yaml.v3 reads itself end up as a head comment: a different body *)
 Definition has_line (l : list litem) : bool := existsb (fun it => match it with LLine _ => true | LSep => false end) l.
@@ -132,7 +134,7 @@ Record ccase := mkCase {
 }.
 
 (* status byte (0 = exit 0, 1 = error) followed by stdout *)
-Definition run_case (fixp : bool) (c : ccase) : str :=
+Definition run_case (fixp force : bool) (c : ccase) : str :=
   let cfg := c_cfg c in
-  let r := (if c_all c then run_all else run_seq) 0 absorb_inst (pfail_inst cfg) (ev_inst (c_table c) (c_nsel c)) tt cfg fixp (c_files c) in
+  let r := (if c_all c then run_all else run_seq) 0 absorb_inst (pfail_inst cfg) (ev_inst (force && negb (c_all c)) (c_table c) (c_nsel c)) tt cfg fixp (c_files c) in
   (match snd r with Done => 48 | Failed => 49 end) :: render cfg (fst r).
